@@ -94,6 +94,43 @@ fn main() {
         }
     }
 
+    // ---- 0a'. partial body lengths that declare far more than follows, at the FIRST length and at a CONTINUATION length (a
+    //          512-octet first part fully present, then a length of 2^16 .. 2^30 with 16 octets behind it); and an honest
+    //          stream in 4 MiB parts: the reader's buffer does not grow with what a length octet says
+    {
+        for k in [16u8, 20, 24, 28, 30] {
+            for tag in [11u8, 8, 18] {
+                let mut d = vec![0xC0 | tag, 0xE0 + 9];
+                let mut first = if tag == 11 { vec![b'b', 0, 0, 0, 0, 0] } else if tag == 8 { vec![0u8] } else { vec![1u8] }; first.resize(512, 0x61);
+                d.extend_from_slice(&first); d.push(0xE0 + k); d.extend([0x62u8; 16]);
+                let (mut r, mut peak, _t, mut dt) = measure(|| parse_all(&d));
+                let bound = 192 * 1024 + 64 * d.len();
+                if peak > bound { let again = measure(|| parse_all(&d)); r = again.0; peak = again.1; dt = again.3; }
+                let ok = r.is_ok() && peak <= bound && dt < 5.0;
+                out.case("", &[], &["declared-continuation".into(), tag.to_string(), k.to_string(), hx(&d[..8])], &format!("peak={peak} bound={bound} secs={:.2}", dt), Some(ok), "declared-partial-continuation");
+                let mut d1 = vec![0xC0 | tag, 0xE0 + k]; d1.extend_from_slice(&first[..40]);
+                let (mut r, mut peak, _t, mut dt) = measure(|| parse_all(&d1));
+                let bound = 192 * 1024 + 64 * d1.len();
+                if peak > bound { let again = measure(|| parse_all(&d1)); r = again.0; peak = again.1; dt = again.3; }
+                out.case("", &[], &["declared-first-partial".into(), tag.to_string(), k.to_string()], &format!("peak={peak} bound={bound} secs={:.2}", dt), Some(r.is_ok() && peak <= bound && dt < 5.0), "declared-partial-first");
+            }
+        }
+        // honest: 12 MiB of literal data in 4 MiB partial parts, read through a 4 KiB sink
+        let big = 12usize << 20;
+        let mut d = vec![0xC0 | 11u8];
+        let mut left = big + 6; let mut firstp = true;
+        let mut body = vec![b'b', 0, 0, 0, 0, 0]; body.resize(big + 6, 0x5a);
+        let mut pos = 0usize;
+        while left >= (4 << 20) { d.push(0xE0 + 22); d.extend_from_slice(&body[pos..pos + (4 << 20)]); pos += 4 << 20; left -= 4 << 20; firstp = false; }
+        let _ = firstp; d.push(255); d.extend((left as u32).to_be_bytes()); d.extend_from_slice(&body[pos..]);
+        drop(body);
+        let run = |d: &[u8]| -> usize { let mut n = 0usize; if let Ok(mut m) = Message::from_bytes(d) { let mut sink = [0u8; 4096]; while let Ok(k) = m.read(&mut sink) { if k == 0 { break; } n += k; } } n };
+        let (r, peak, _t, dt) = measure(|| run(&d));
+        // the message itself is held by the caller (a slice); what the library adds on top stays small
+        let ok = matches!(r, Ok(n) if n == big) && peak <= 1 << 20 && dt < 30.0;
+        out.case("", &[], &["honest-large-parts".into(), d.len().to_string()], &format!("read={:?} peak={peak} secs={:.2}", r, dt), Some(ok), "streamed-large-parts");
+    }
+
     // ---- 0b. what is skipped or streamed is not held: a compressed packet of a few dozen kilobytes whose content is a padding
     //          packet (or marker packets, or an unknown-tag packet) of 32 MB in front of a small literal; and a literal of
     //          32 MB of zeros read through a fixed sink.  Peak memory follows the octets supplied (the compressed input).
